@@ -1298,7 +1298,8 @@ def run_shuffle_job(exe, argv, with_restart):
         av = list(base)
         av[av.index("--first") + 1] = str(pos)
         av[av.index("--count") + 1] = str(end - pos)
-        rc, out, err = common.run_child([exe] + av, timeout=1800)
+        # no stack traces here: symbolising one per abort costs seconds; one trace per distinct report is fetched later
+        rc, out, err = common.run_child([exe] + av, timeout=1800, env={"UBSAN_OPTIONS": "print_stacktrace=0:halt_on_error=1:exitcode=67"} if with_restart else None)
         last = pos - 1
         done = False
         for ln in out.decode("utf-8", "replace").splitlines():
@@ -1370,16 +1371,23 @@ def workload_c(chk, exe_plain, exe_asan, tier, scale, cov):
     samples = []
     rejected_samples = []
     refused = {}
+    san_kinds = set()
     for job, cases, sums, reps in common.parallel_map(one, jobs):
         exe, argv, restart, tag = job
         arch = argv[argv.index("--arch") + 1]
         for bad, rep, av in reps:
             san_aborts += 1
-            top = next((f for f in rep["frames"] if "asmjit" in f and "drv_func" not in f), rep["frames"][0] if rep["frames"] else "?")
             kind = rep["kind"].split(" on ")[0][:70]
+            if kind in san_kinds:
+                continue
+            san_kinds.add(kind)
+            only = av + ["--only", str(bad)]
+            rc2, out2, err2 = common.run_child([exe] + only, timeout=600)
+            rep2 = common.sanitizer_report(err2) or rep
+            top = next((f for f in rep2["frames"] if "asmjit" in f and "drv_func" not in f and "support.h" not in f and "operand.h" not in f), rep2["frames"][0] if rep2["frames"] else "?")
             chk.violation("shuffle:sanitizer:%s:%s" % (kind, top.split("(")[0].replace("asmjit::v1_21::", "")[:80]),
-                          "sanitizer report in case %d of `%s`: %s %s" % (bad, " ".join(av), rep["kind"], rep["frames"][:5]),
-                          {"part": "shuffle", "flavour": tag, "argv": av + ["--only", str(bad)]})
+                          "sanitizer report in case %d of `%s`: %s %s" % (bad, " ".join(av), rep2["kind"], rep2["frames"][:5]),
+                          {"part": "shuffle", "flavour": tag, "argv": only})
         if tag == "asan":
             continue
         for sm in sums:
